@@ -89,6 +89,44 @@ inline LD rotAngle(const M3& R) {
     V3 s(R[2][1] - R[1][2], R[0][2] - R[2][0], R[1][0] - R[0][1]);    // 2 sin(a) u
     return std::atan2(norm(s), trace(R) - 1);                           // 2 sin a , 2 cos a
 }
+
+// 3x3 inverse by adjugate (long double)
+inline M3 inv3(const M3& a) {
+    M3 r; LD d = det(a);
+    V3 c0 = cross(a.col(1), a.col(2)), c1 = cross(a.col(2), a.col(0)), c2 = cross(a.col(0), a.col(1));
+    for (int j = 0; j < 3; ++j) { r[0][j] = c0[j] / d; r[1][j] = c1[j] / d; r[2][j] = c2[j] / d; }
+    return r;
+}
+// rotation vector (log map) of a rotation close to identity: vee of the skew part, exact to O(angle^3)
+inline V3 smallRotVec(const M3& E) {
+    V3 s(0.5L * (E[2][1] - E[1][2]), 0.5L * (E[0][2] - E[2][0]), 0.5L * (E[1][0] - E[0][1]));   // sin(a) u
+    LD sn = norm(s); if (sn == 0) return s;
+    LD a = std::atan2(sn, 0.5L * (trace(E) - 1));
+    return (a / sn) * s;
+}
+// body-fixed Euler sequence (axes a[0],a[1],a[2] about successively rotated axes):  R = A_a0(q0) A_a1(q1) A_a2(q2).
+// NInvP maps qdot to the angular velocity expressed in the parent: its columns are the instantaneous rotation axes.
+struct EulerRef { M3 R, NInvP, NInvB, NP, NB; };
+inline EulerRef eulerRef(const int a[3], const LD q[3]) {
+    EulerRef o; M3 A0 = axisRot(a[0], q[0]), A1 = axisRot(a[1], q[1]), A2 = axisRot(a[2], q[2]);
+    o.R = A0 * A1 * A2;
+    V3 e0, e1, e2; e0[a[0]] = 1; e1[a[1]] = 1; e2[a[2]] = 1;
+    V3 c0 = e0, c1 = A0 * e1, c2 = (A0 * A1) * e2;
+    for (int i = 0; i < 3; ++i) { o.NInvP[i][0] = c0[i]; o.NInvP[i][1] = c1[i]; o.NInvP[i][2] = c2[i]; }
+    o.NInvB = tr(o.R) * o.NInvP; o.NP = inv3(o.NInvP); o.NB = inv3(o.NInvB);
+    return o;
+}
+// coordinates of rotation Rt in the chart containing q0 (Newton on the rotation error; converges for Rt near R(q0))
+inline void eulerSolve(const int a[3], const M3& Rt, const LD q0[3], LD q[3]) {
+    q[0] = q0[0]; q[1] = q0[1]; q[2] = q0[2];
+    for (int it = 0; it < 8; ++it) {
+        EulerRef r = eulerRef(a, q);
+        V3 e = smallRotVec(Rt * tr(r.R));          // parent-frame rotation vector taking R(q) to Rt
+        V3 dq = r.NP * e;
+        q[0] += dq[0]; q[1] += dq[1]; q[2] += dq[2];
+        if (maxAbs(dq) < 1e-19L) break;
+    }
+}
 inline LD wrapPi(LD a) { a = std::fmod(a, 2 * PI); if (a > PI) a -= 2 * PI; if (a < -PI) a += 2 * PI; return a; }
 
 inline std::string show(V3 a) { std::ostringstream o; o.precision(17); o << "(" << (double)a[0] << "," << (double)a[1] << "," << (double)a[2] << ")"; return o.str(); }
